@@ -211,8 +211,9 @@ def apalache(c):
     t0 = time.time()
     ok = 0
     outdir = os.path.join(c.dir, "apalache")
+    os.makedirs(outdir, exist_ok=True)
     for args in (["--init=Init", "--inv=IndInv", "--length=0"], ["--init=IndInit", "--inv=IndInv", "--length=1"]):
-        r = vlib.sh(["timeout", "600", "apalache-mc", "check", "--out-dir=" + outdir] + args + ["EASizing.tla"], cwd=SD, timeout=700)
+        r = vlib.sh(["timeout", "600", "apalache-mc", "check", "--out-dir=" + outdir] + args + ["EASizing.tla"], cwd=SD, timeout=700, env={"TMPDIR": outdir})
         if "Checker reports no error" in (r.stdout or "") or "The outcome is: NoError" in (r.stdout or ""):
             ok += 1
     c.cov["apalache_inductive_invariant"] = {"obligations": 2, "discharged": ok, "wall_s": round(time.time() - t0, 1),
